@@ -235,6 +235,8 @@ class CoreMixin:
         self.pc_n = 0
         self.pc_has_quant = False
         self.seq_risky = False
+        self.assumed = {}
+        self.noseq = []
         self.wf_seen = set()
         self.wf_keep = []
         from . import lists as L
@@ -246,12 +248,15 @@ class CoreMixin:
         if z3.is_true(zbool):
             return
         self.solver.add(zbool)
+        self.assumed.setdefault(zbool.hash(), []).append(zbool)
         # branch feasibility is decided on the quantifier-free, sequence-operation-free part of
         # the path condition (weaker: may keep an infeasible path alive, never drops a feasible one)
         q = has_quantifier(zbool)
         sq = mentions_seq_ops(zbool)
         if sq:
             self.seq_risky = True
+        else:
+            self.noseq.append(zbool)
         if q:
             self.pc_has_quant = True
         if not q and not sq:
@@ -343,11 +348,56 @@ class CoreMixin:
             rec = ObRec(oid, kind, label, props, aux)
             self.obs[oid] = rec
             self.ob_order.append(oid)
+        raw_goal = goal
+        if any(raw_goal.eq(a) for a in self.assumed.get(raw_goal.hash(), ())):
+            # literally one of the hypotheses (e.g. an invariant clause nothing has touched)
+            rec.results.append(('unsat', 0.0, None, self.path_no, 'identity'))
+            return
         goal = z3.simplify(goal)
         if z3.is_true(goal):
             rec.results.append(('unsat', 0.0, None, self.path_no, 'simplifier'))
             return
         self.flush_axioms()
+        if self.seq_risky and not has_quantifier(goal) and not mentions_seq_ops(goal):
+            # the part of the hypotheses without quantifiers and sequence operations may suffice
+            t0 = time.time()
+            self.light.push()
+            try:
+                self.light.add(z3.Not(goal))
+                rl = hard_check(self.light, limit_ms=self.branch_timeout_ms)
+            finally:
+                self.light.pop()
+            dtl = time.time() - t0
+            self.solver_s += dtl
+            self.queries += 1
+            if rl == z3.unsat:
+                rec.results.append(('unsat', dtl, None, self.path_no, 'z3-qf'))
+                if assume_after:
+                    self.assume(goal)
+                return
+        if any(r[0] != 'unsat' for r in rec.results):
+            # this clause is already open on an earlier path: the verdict cannot improve, so the
+            # expensive attempts are not repeated on every further path
+            rec.results.append(('unknown', 0.0, None, self.path_no, 'skipped'))
+            if assume_after:
+                self.assume(goal)
+            return
+        if self.seq_risky and not mentions_seq_ops(goal):
+            # ... or the hypotheses without sequence operations (quantified ones included)
+            t0 = time.time()
+            s3 = z3.Solver()
+            s3.set('timeout', self.check_timeout_ms)
+            s3.add(self.noseq)
+            s3.add(z3.Not(goal))
+            r3 = hard_check(s3, limit_ms=self.check_timeout_ms)
+            d3 = time.time() - t0
+            self.solver_s += d3
+            self.queries += 1
+            if r3 == z3.unsat:
+                rec.results.append(('unsat', d3, None, self.path_no, 'z3-noseq'))
+                if assume_after:
+                    self.assume(goal)
+                return
         if self.seq_risky or mentions_seq_ops(goal):
             # sequence operations: external solver processes with hard time limits
             # (cvc5 first, then the z3 command line); no model is extracted
@@ -363,10 +413,31 @@ class CoreMixin:
             elif verdict == 'sat':
                 rec.results.append(('sat', dt, {'__no_model__': 'external solver %s answered sat' % who}, self.path_no, who))
             else:
-                rec.results.append(('unknown', dt, None, self.path_no, 'cvc5+z3'))
+                cand = self.candidate_model(goal)
+                if cand is not None:
+                    rec.results.append(('candidate', dt, cand, self.path_no, 'z3'))
+                else:
+                    rec.results.append(('unknown', dt, None, self.path_no, 'cvc5+z3'))
             if assume_after:
                 self.assume(goal)
             return
+        if (self.pc_has_quant or has_quantifier(goal)) and not has_quantifier(goal):
+            # a subset of the hypotheses (the quantifier-free ones) may already suffice
+            t0 = time.time()
+            self.light.push()
+            try:
+                self.light.add(z3.Not(goal))
+                rl = hard_check(self.light, limit_ms=self.branch_timeout_ms)
+            finally:
+                self.light.pop()
+            dtl = time.time() - t0
+            self.solver_s += dtl
+            self.queries += 1
+            if rl == z3.unsat:
+                rec.results.append(('unsat', dtl, None, self.path_no, 'z3-qf'))
+                if assume_after:
+                    self.assume(goal)
+                return
         if self.pc_has_quant or has_quantifier(goal):
             r, dt = z3.unknown, 0.0
         else:
@@ -427,6 +498,25 @@ class CoreMixin:
                     rec.results.append(('unknown', dt, None, self.path_no, 'z3'))
         if assume_after:
             self.assume(goal)
+
+    def candidate_model(self, goal):
+        '''A model of the quantifier-free, sequence-operation-free hypotheses and the negated
+        goal: a candidate counterexample for the replay, not a verdict.'''
+        if mentions_seq_ops(goal):
+            return None
+        cand = None
+        try:
+            self.light.push()
+            self.light.add(z3.Not(goal))
+            rl = hard_check(self.light, limit_ms=self.branch_timeout_ms)
+            if rl == z3.sat:
+                self._model_solver = self.light
+                cand = self.capture_model() or {}
+                cand['__candidate__'] = 'quantified / sequence hypotheses not used'
+            self._model_solver = None
+        finally:
+            self.light.pop()
+        return cand
 
     def second_opinion(self, goal):
         '''Ask cvc5 about an obligation z3 left open (SMT-LIB2 dump).'''
